@@ -199,7 +199,7 @@ func runOneClientOps(c coCase) (sx.V, sx.V) {
 			nl = 1
 		}
 	}
-	cl.Kill()
+	boundedKill(cl)
 	lk := 0
 	if c.Launch == "runnerfunc" {
 		lk = 1
